@@ -464,3 +464,25 @@ func init() {
 		return sched.Config{Bounds: b, Iterative: true}, c19concBody
 	}})
 }
+
+// Race pass: writers, collect, HOTKEY reader and Free by real goroutines under the race detector.
+func c19race() {
+	col := NewCollector(3)
+	c0, c1 := col.AllocCounter("n0"), col.AllocCounter("n1")
+	var wg vsync.WaitGroup
+	run := func(f func()) { wg.Add(1); go func() { defer wg.Done(); f() }() }
+	run(func() { c0.Incr("a"); c0.Incr("b"); c0.Incr("a") })
+	run(func() { c1.Incr("a"); c1.Incr("c") })
+	run(func() { col.collect(); _ = col.HotKeys(); col.evictStale() })
+	run(func() {
+		for _, k := range col.HotKeys() {
+			_ = k.Counter.Value()
+		}
+	})
+	run(func() { c1.Free() })
+	wg.Wait()
+}
+
+func init() {
+	sched.Register(&sched.Scenario{Name: "C19/collector-race", Race: c19race})
+}
